@@ -1,4 +1,5 @@
 import RV.Base.SetList
+import RV.C15.ModelIri
 /-
   C15 — executable model of the parts of rdflib's SPARQL engine that the property
   "query answers do not depend on how the query is written, prepared or stored" talks about.
@@ -524,6 +525,6 @@ def Prologue.bind (pr : Prologue) (p : Nat) (ns : List Nat) : Prologue :=
 def resolve1 (pr : Prologue) : STerm → Option (List Nat)
   | .full iri => some iri
   | .pname p loc => (lookupPrefix pr.prefixes p).map (· ++ loc)
-  | .rel r => some (pr.base ++ r)
+  | .rel r => some (Iri.absolutize pr.base r)      -- `URIRef(iri, base=self.base)`: urljoin as CPython codes it
 
 end RV.C15
